@@ -60,7 +60,7 @@ Proof. intros matchf maxc input repl s0 G Hc H0 E. exact (replace_dollar0_identi
    repeat), unoptimised program: no hypothesis about the matcher is left - the interface facts
    (group 0 = (k, q), pos <= k < q <= len, state invariant) are proved in Proofs/FragmentApi.v from
    the frame theorem mi_frame and the C16 guard *)
-Theorem C04_fragment_tokenize_pieces :
+Theorem C04_fragment_tokenize_pieces_partial :
   forall prog input,
     simple input (p_case prog) (p_multi prog) (p_hasbackrefs prog) (p_maxparens prog) (p_op prog) ->
     framed (p_op prog) ->
@@ -75,7 +75,7 @@ Proof. exact fragment_tokenize. Qed.
 (* tokenize and analyze from the strings for patterns of ordinary characters: the tokens are the
    pieces between the occurrences the scan visits; the texts of the entries of a finished analyze
    iteration concatenate to the input.  No hypothesis about parser, matcher or scan loop. *)
-Theorem C04_ordinary_pattern_end_to_end :
+Theorem C04_ordinary_pattern_end_to_end_partial :
   forall xpath pat fls input,
     forallb ordinary pat = true -> pat <> [] -> (N.of_nat (length pat) <= umax)%N ->
     existsb (N.eqb 59) fls = false ->
@@ -95,7 +95,7 @@ Proof. exact ordinary_tokenize_analyze_end_to_end. Qed.
 
 (* tokenize from the strings on the grammar of Proofs/GroupGrammar.v: the tokens are the pieces of
    the input between the specification's spans *)
-Theorem C04_group_grammar_tokens :
+Theorem C04_group_grammar_tokens_partial :
   forall xpath a fls input,
     ok_a xpath a = true -> existsb (N.eqb 59) fls = false -> (N.of_nat (length input) < umax)%N ->
     match spec_flags xpath fls with
@@ -117,6 +117,6 @@ Print Assumptions C04_replace_joins_pieces_partial.
 Print Assumptions C04_analyze_texts_partial.
 Print Assumptions C04_analyze_iterator_partial.
 Print Assumptions C04_replace_dollar0_identity_partial.
-Print Assumptions C04_fragment_tokenize_pieces.
-Print Assumptions C04_ordinary_pattern_end_to_end.
-Print Assumptions C04_group_grammar_tokens.
+Print Assumptions C04_fragment_tokenize_pieces_partial.
+Print Assumptions C04_ordinary_pattern_end_to_end_partial.
+Print Assumptions C04_group_grammar_tokens_partial.
